@@ -342,7 +342,7 @@ if __name__ == "__main__":
 # value of EVERY pair (WuffsCore!ClaimedRanges) and the C with the semantics (C04).  Range pairs are chosen so that
 # the exact result fits the type (the checker should accept; a rejected package is counted, never an alarm).
 
-_GRID_RANGES = [(0, 0), (0, 1), (1, 1), (0, 7), (2, 4), (5, 9), (3, 20), (17, 31)]
+_GRID_RANGES = [(0, 0), (0, 1), (1, 1), (0, 7), (2, 4), (5, 9), (3, 14), (17, 28)]
 
 
 def _grid_valid(op, ty, X, Y):
@@ -377,7 +377,7 @@ def opgrid_programs(rng, ops=None, per_op=6, widths=("u32", "u8")):
             # always keep the pairs where the operand ranges overlap or straddle each other (that is where range rules differ)
             pairs.sort(key=lambda p: 0 if (p[0][0] <= p[1][1] and p[1][0] <= p[0][1] and p[0] != p[1]) else 1)
             # the operators whose range rule has case distinctions on how the operand ranges relate get more pairs
-            pairs = pairs[:(per_op * 3 if op in ("%", "/", ">>", "-", "&", "~sat-") else per_op)]
+            pairs = pairs[:(per_op * 2 if op in ("%", "/", ">>", "-", "&", "~sat-") else per_op)]
             if not pairs:
                 continue
             L = ["// wcore: allargs maxcalls=1", "pub struct foo?(", "\tz : base.u32,", ")", ""]
